@@ -537,6 +537,8 @@ fn main() {
             // one base, two parameter sets, one step deeper: histories such as
             // "prepare under P0 ; switch to P1 ; prove with the held preparation"
             sc(&["B0"], 2, 3, false),
+            // a child whose prover reduced its ALU lanes (stark_common != the prover data it came with)
+            sc(&["B2"], 1, 2, false),
         ]
     } else {
         vec![
@@ -988,6 +990,16 @@ fn main() {
         boundary_counts = n;
     }
 
+    for d in objs::CONVERSION_DEFECTS.lock().unwrap().iter() {
+        violations.push((
+            0,
+            0,
+            0,
+            "output_to_input:into_recursion_input:foreign_common_data".to_string(),
+            d.clone(),
+            json!({"history": [], "note": d}),
+        ));
+    }
     // shortest history first, so that the case kept per key is the minimal one
     violations.sort_by(|a, b| (a.0, a.1, a.2).cmp(&(b.0, b.1, b.2)));
     for (_, _, _, k, what, rp) in violations {
